@@ -17,6 +17,7 @@ type Clause struct {
 	Text  string
 	Expr  *SExpr
 	Name  string // for let / witness / ghost: the name bound
+	Using []*SExpr // lemma instances assumed for this clause only (`... using lemma(args); lemma(args)`)
 	File  string
 	Line  int
 }
@@ -182,6 +183,19 @@ func (cs *Contracts) parseFile(file, pkg, src string) error {
 	var loop *LoopSpec
 	mk := func(r rawClause) (*Clause, error) {
 		c := &Clause{Kind: r.kw, Props: r.props, Text: r.text, File: file, Line: r.line}
+		if i := strings.Index(r.text, " using "); i >= 0 {
+			for _, u := range strings.Split(r.text[i+len(" using "):], ";") {
+				if u = strings.TrimSpace(u); u != "" {
+					ue, err := ParseSpec(u)
+					if err != nil {
+						return nil, fmt.Errorf("%s:%d: %v in %q", file, r.line, err, u)
+					}
+					c.Using = append(c.Using, ue)
+				}
+			}
+			r.text = strings.TrimSpace(r.text[:i])
+			c.Text = r.text
+		}
 		e, err := ParseSpec(r.text)
 		if err != nil {
 			return nil, fmt.Errorf("%s:%d: %v in %q", file, r.line, err, r.text)
